@@ -59,7 +59,7 @@ def build():
                 import importlib
                 mod = importlib.import_module('vp.props.' + pid.lower())
                 if getattr(mod, 'LEVEL_TEXT', None):
-                    meta = (mod.DESIGN_REF, mod.TECHNIQUE, mod.LEVEL_TEXT, mod.LEVEL_NOTE)
+                    meta = (mod.DESIGN_REF, mod.TECHNIQUE, (mod.LEVEL_TEXT + ' ' + getattr(mod, 'LEVEL_ADDED', '')).strip(), mod.LEVEL_NOTE)
         if meta:
             sec, tech, text, note = meta
             checks.append({
